@@ -1,5 +1,6 @@
 /-
-  C15 — soundness of the EDIF reference resolver: invariant of the scope, one lemma per event.
+  C15 — the resolver against the scoping rules: basic facts (Bool/Prop bridges, first-match lookups,
+  the visibility fold), then the lockstep between the resolver's scope and `visAt`.
 -/
 import Spydr.IO.SpecResolve
 namespace Spydr.IO.Resolve
@@ -7,411 +8,220 @@ namespace Spydr.IO.Resolve
 theorem eqI_lower {a b : String} (h : eqI a b = true) : a.toLower = b.toLower := by
   simpa [eqI] using h
 
-theorem findCell_some {cells : List CellSig} {n : String} {t : CellSig} (h : findCell cells n = some t) :
-    t ∈ cells ∧ eqI t.ident n = true := by
-  unfold findCell at h
-  have h2 := List.find?_some h
-  exact ⟨List.mem_of_find?_eq_some h, h2⟩
+/-! ### Bool / Prop bridges -/
 
-theorem findLib_some {libs : List LibSig} {n : String} {t : LibSig} (h : findLib libs n = some t) :
-    t ∈ libs ∧ eqI t.ident n = true := by
-  unfold findLib at h
-  have h2 := List.find?_some h
-  exact ⟨List.mem_of_find?_eq_some h, h2⟩
-
-theorem findInst_some {is : List InstSig} {n : String} {t : InstSig} (h : findInst is n = some t) :
-    t ∈ is ∧ eqI t.ident n = true := by
-  unfold findInst at h
-  have h2 := List.find?_some h
-  exact ⟨List.mem_of_find?_eq_some h, h2⟩
-
-theorem findPort_some {ps : List PortDecl} {n : String} {k j : Nat} {pd : PortDecl}
-    (h : findPort ps n k = some (j, pd)) : ∃ idx, j = k + idx ∧ ps[idx]? = some pd ∧ eqI pd.ident n = true := by
-  induction ps generalizing k with
-  | nil => simp [findPort] at h
-  | cons p r ih =>
-    unfold findPort at h
+theorem isLibNamed_iff (all : List Ev) (n : String) (p : Nat) : isLibNamed all n p = true ↔ LibNamed all n p := by
+  unfold isLibNamed LibNamed
+  constructor
+  · intro h
     split at h
-    · rename_i hp
-      simp only [Option.some.injEq, Prod.mk.injEq] at h
-      obtain ⟨rfl, rfl⟩ := h
-      exact ⟨0, by simp, by simp, hp⟩
-    · obtain ⟨idx, h1, h2, h3⟩ := ih h
-      exact ⟨idx + 1, by omega, by simpa using h2, h3⟩
+    · rename_i i hi; exact ⟨i, hi, h⟩
+    · cases h
+  · rintro ⟨i, hi, h⟩
+    rw [hi]; exact h
 
-/-! ### the scope only ever holds declarations of this stream -/
+theorem isCellNamed_iff (all : List Ev) (n : String) (d : Nat) : isCellNamed all n d = true ↔ CellNamed all n d := by
+  unfold isCellNamed CellNamed
+  constructor
+  · intro h
+    split at h
+    · rename_i i v ps hi; exact ⟨i, v, ps, hi, h⟩
+    · cases h
+  · rintro ⟨i, v, ps, hi, h⟩
+    rw [hi]; exact h
 
-def CellOK (all : List Ev) (bound : Nat) (c : CellSig) : Prop :=
-  all[c.pos]? = some (.cell c.ident c.view c.ports) ∧ c.pos < bound
+theorem isInstNamed_iff (all : List Ev) (n : String) (a : Nat) : isInstNamed all n a = true ↔ InstNamed all n a := by
+  unfold isInstNamed InstNamed
+  constructor
+  · intro h
+    split at h
+    · rename_i i v c l hi; exact ⟨i, v, c, l, hi, h⟩
+    · cases h
+  · rintro ⟨i, v, c, l, hi, h⟩
+    rw [hi]; exact h
 
-def InstOK (all : List Ev) (bound : Nat) (i : InstSig) : Prop :=
-  (∃ v co lo, all[i.pos]? = some (.inst i.ident v co lo)) ∧ i.pos < bound ∧ CellOK all bound i.target
+theorem viewIs_iff (all : List Ev) (n : String) (d : Nat) : viewIs all n d = true ↔ ViewIs all n d := by
+  unfold viewIs ViewIs
+  constructor
+  · intro h
+    split at h
+    · rename_i i v ps hi; exact ⟨i, v, ps, hi, h⟩
+    · cases h
+  · rintro ⟨i, v, ps, hi, h⟩
+    rw [hi]; exact h
 
-def LibOK (all : List Ev) (bound : Nat) (l : LibSig) : Prop :=
-  Ev.lib l.ident ∈ all ∧ ∀ c ∈ l.cells, CellOK all bound c
+/-! ### first-match lookups -/
 
-structure ScopeOK (all : List Ev) (bound : Nat) (sc : Scope) : Prop where
-  done : ∀ l ∈ sc.done, LibOK all bound l
-  cur : ∀ l, sc.cur = some l → LibOK all bound l
-  cell : ∀ c is, sc.cell = some (c, is) → CellOK all bound c ∧ ∀ i ∈ is, InstOK all bound i
+section first
+variable {β : Type}
 
-theorem CellOK.mono {all : List Ev} {b b' : Nat} {c : CellSig} (h : CellOK all b c) (hb : b ≤ b') : CellOK all b' c :=
-  ⟨h.1, Nat.lt_of_lt_of_le h.2 hb⟩
-
-theorem InstOK.mono {all : List Ev} {b b' : Nat} {i : InstSig} (h : InstOK all b i) (hb : b ≤ b') : InstOK all b' i :=
-  ⟨h.1, Nat.lt_of_lt_of_le h.2.1 hb, h.2.2.mono hb⟩
-
-theorem LibOK.mono {all : List Ev} {b b' : Nat} {l : LibSig} (h : LibOK all b l) (hb : b ≤ b') : LibOK all b' l :=
-  ⟨h.1, fun c hc => (h.2 c hc).mono hb⟩
-
-theorem ScopeOK.mono {all : List Ev} {b b' : Nat} {sc : Scope} (h : ScopeOK all b sc) (hb : b ≤ b') : ScopeOK all b' sc :=
-  ⟨fun l hl => (h.done l hl).mono hb, fun l hl => (h.cur l hl).mono hb,
-   fun c is hc => ⟨(h.cell c is hc).1.mono hb, fun i hi => ((h.cell c is hc).2 i hi).mono hb⟩⟩
-
-theorem scopeOK_empty (all : List Ev) : ScopeOK all 0 Scope.empty :=
-  ⟨by simp [Scope.empty], by simp [Scope.empty], by simp [Scope.empty]⟩
-
-/-! declared-set membership from a witnessed declaration -/
-
-theorem cell_declared {all : List Ev} {b : Nat} {c : CellSig} (h : CellOK all b c) :
-    c.ident.toLower ∈ declaredCells all ∧ c.view.toLower ∈ declaredViews all ∧
-    ∀ p ∈ c.ports, p.ident.toLower ∈ declaredPorts all := by
-  have hm : Ev.cell c.ident c.view c.ports ∈ all := List.mem_of_getElem? h.1
-  refine ⟨?_, ?_, ?_⟩
-  · exact List.mem_filterMap.mpr ⟨_, hm, rfl⟩
-  · exact List.mem_filterMap.mpr ⟨_, hm, rfl⟩
-  · intro p hp
-    exact List.mem_flatMap.mpr ⟨_, hm, List.mem_map.mpr ⟨p, hp, rfl⟩⟩
-
-theorem lib_declared {all : List Ev} {b : Nat} {l : LibSig} (h : LibOK all b l) : l.ident.toLower ∈ declaredLibs all :=
-  List.mem_filterMap.mpr ⟨_, h.1, rfl⟩
-
-theorem inst_declared {all : List Ev} {b : Nat} {i : InstSig} (h : InstOK all b i) : i.ident.toLower ∈ declaredInsts all := by
-  obtain ⟨v, co, lo, hh⟩ := h.1
-  exact List.mem_filterMap.mpr ⟨_, List.mem_of_getElem? hh, rfl⟩
-
-/-! ### the helpers -/
-
-theorem targetCells_sound {all : List Ev} {b : Nat} {sc : Scope} {l : LibSig} {lo : Option String}
-    {cells : List CellSig} (hsc : ScopeOK all b sc) (hl : LibOK all b l)
-    (h : targetCells sc l lo = .ok cells) :
-    (∀ x ∈ cells, CellOK all b x) ∧ (∀ ln, lo = some ln → ln.toLower ∈ declaredLibs all) := by
-  cases lo with
-  | none =>
-    simp only [targetCells, Except.ok.injEq] at h
-    subst h
-    exact ⟨hl.2, by simp⟩
-  | some ln =>
-    simp only [targetCells] at h
-    by_cases hln : eqI l.ident ln = true
-    · simp only [hln, if_true, Except.ok.injEq] at h
-      subst h
-      refine ⟨hl.2, ?_⟩
-      intro ln' hln'; cases hln'
-      rw [← eqI_lower hln]; exact lib_declared hl
-    · simp only [hln] at h
-      cases hL : findLib sc.done ln with
-      | none => simp [hL] at h
-      | some L =>
-        simp [hL] at h
-        subst h
-        have hLok := hsc.done L (findLib_some hL).1
-        refine ⟨hLok.2, ?_⟩
-        intro ln' hln'; cases hln'
-        rw [← eqI_lower (findLib_some hL).2]; exact lib_declared hLok
-
-theorem pickCell_sound {all : List Ev} {b : Nat} {cells : List CellSig} {cn v : String} {t : CellSig}
-    (hcells : ∀ x ∈ cells, CellOK all b x) (h : pickCell cells cn v = .ok t) :
-    CellOK all b t ∧ eqI t.view v = true ∧ eqI t.ident cn = true := by
-  unfold pickCell at h
-  cases hf : findCell cells cn with
-  | none => simp [hf] at h
-  | some t' =>
-    simp only [hf] at h
-    by_cases hv : eqI t'.view v = true
-    · simp only [hv, if_true, Except.ok.injEq] at h
-      subst h
-      exact ⟨hcells _ (findCell_some hf).1, hv, (findCell_some hf).2⟩
-    · simp [hv] at h
-
-theorem resolveTarget_sound {all : List Ev} {b : Nat} {sc : Scope} {l : LibSig} {c t : CellSig} {v : String}
-    {co lo : Option String} (hsc : ScopeOK all b sc) (hl : LibOK all b l) (hc : CellOK all b c)
-    (h : resolveTarget sc l c v co lo = .ok t) :
-    CellOK all b t ∧ eqI t.view v = true ∧ (∀ cn, co = some cn → eqI t.ident cn = true) ∧
-    (∀ ln, lo = some ln → co ≠ none → ln.toLower ∈ declaredLibs all) := by
-  cases co with
-  | none =>
-    simp only [resolveTarget] at h
-    by_cases hv : eqI c.view v = true
-    · simp only [hv, if_true, Except.ok.injEq] at h
-      subst h
-      exact ⟨hc, hv, by simp, by simp⟩
-    · simp [hv] at h
-  | some cn =>
-    simp only [resolveTarget] at h
-    cases ht : targetCells sc l lo with
-    | error e => simp [ht] at h
-    | ok cells =>
-      simp only [ht] at h
-      obtain ⟨h1, h2⟩ := targetCells_sound hsc hl ht
-      obtain ⟨a, b', c'⟩ := pickCell_sound h1 h
-      exact ⟨a, b', by intro cn' hcn; cases hcn; exact c', fun ln hln _ => h2 ln hln⟩
-
-theorem ownerOf_sound {all : List Ev} {b : Nat} {c : CellSig} {insts : List InstSig} {io : Option String}
-    {owner : CellSig} {ia : Option Nat} (hc : CellOK all b c) (hi : ∀ i ∈ insts, InstOK all b i)
-    (h : ownerOf c insts io = .ok (owner, ia)) :
-    CellOK all b owner ∧
-    (match io, ia with
-     | none, none => True
-     | some iname, some a => a < b ∧ (∃ iid iv co lo, all[a]? = some (.inst iid iv co lo) ∧ eqI iid iname = true) ∧
-         iname.toLower ∈ declaredInsts all
-     | _, _ => False) := by
-  cases io with
-  | none =>
-    simp only [ownerOf, Except.ok.injEq, Prod.mk.injEq] at h
-    obtain ⟨rfl, rfl⟩ := h
-    exact ⟨hc, trivial⟩
-  | some iname =>
-    simp only [ownerOf] at h
-    cases hf : findInst insts iname with
-    | none => simp [hf] at h
-    | some i =>
-      simp only [hf, Except.ok.injEq, Prod.mk.injEq] at h
-      obtain ⟨rfl, rfl⟩ := h
-      have hio := hi i (findInst_some hf).1
-      refine ⟨hio.2.2, hio.2.1, ?_, ?_⟩
-      · obtain ⟨v, co, lo, hh⟩ := hio.1
-        exact ⟨i.ident, v, co, lo, hh, (findInst_some hf).2⟩
-      · rw [← eqI_lower (findInst_some hf).2]; exact inst_declared hio
-
-theorem pickPort_sound {owner : CellSig} {ia : Option Nat} {p : String} {m : Option Nat} {r : RRef}
-    (h : pickPort owner ia p m = .ok r) :
-    ∃ k pd, r = .pin owner.pos k (m.getD 0) ia ∧ owner.ports[k]? = some pd ∧ eqI pd.ident p = true ∧
-      m.getD 0 < pd.width := by
-  unfold pickPort at h
-  cases hf : findPort owner.ports p 0 with
-  | none => simp [hf] at h
-  | some kp =>
-    obtain ⟨k, pd⟩ := kp
-    simp only [hf] at h
-    by_cases hw : m.getD 0 < pd.width
-    · simp only [hw, if_true, Except.ok.injEq] at h
-      obtain ⟨idx, h1, h2, h3⟩ := findPort_some hf
-      have : k = idx := by omega
-      subst this
-      exact ⟨k, pd, h.symm, h2, h3, hw⟩
-    · simp [hw] at h
-
-theorem pickTop_sound {all : List Ev} {b : Nat} {done : List LibSig} {cn ln : String} {r : RRef}
-    (hd : ∀ l ∈ done, LibOK all b l) (h : pickTop done cn ln = .ok r) :
-    ∃ t : CellSig, r = .top t.pos ∧ CellOK all b t ∧ eqI t.ident cn = true ∧ ln.toLower ∈ declaredLibs all := by
-  unfold pickTop at h
-  cases hL : findLib done ln with
-  | none => simp [hL] at h
-  | some L =>
-    simp only [hL] at h
-    cases hf : findCell L.cells cn with
-    | none => simp [hf] at h
-    | some t =>
-      simp only [hf, Except.ok.injEq] at h
-      have hLok := hd L (findLib_some hL).1
-      refine ⟨t, h.symm, hLok.2 t (findCell_some hf).1, (findCell_some hf).2, ?_⟩
-      rw [← eqI_lower (findLib_some hL).2]; exact lib_declared hLok
-
-/-! ### one event -/
-
-theorem nc_false {l : List String} {x : String} (h : x ∈ l) : (!l.contains x) = false := by simp [h]
-
-theorem step_sound {all : List Ev} {pos : Nat} {sc sc' : Scope} {e : Ev} {r : Option RRef}
-    (hsc : ScopeOK all pos sc) (he : all[pos]? = some e) (h : stepEv pos sc e = .ok (sc', r)) :
-    ScopeOK all (pos + 1) sc' ∧ (∀ x, r = some x → RefOk all pos x) ∧ undeclared all e = false ∧
-    r.isSome = isRef e := by
-  have hmem : e ∈ all := List.mem_of_getElem? he
-  have hsc1 := hsc.mono (Nat.le_succ pos)
-  obtain ⟨done, cur, cell⟩ := sc
-  cases e with
-  | lib id =>
-    cases cur <;> cases cell <;> simp only [stepEv] at h <;> try cases h
-    refine ⟨⟨hsc1.done, ?_, by simp⟩, by simp, rfl, rfl⟩
-    intro l hl
-    simp only [Option.some.injEq] at hl
-    subst hl
-    exact ⟨hmem, by simp⟩
-  | endLib =>
-    cases cur <;> cases cell <;> simp only [stepEv] at h <;> try cases h
-    rename_i l
-    refine ⟨⟨?_, by simp, by simp⟩, by simp, rfl, rfl⟩
-    intro l' hl'
-    rcases List.mem_append.mp hl' with hl' | hl'
-    · exact hsc1.done l' hl'
-    · simp at hl'; subst hl'; exact hsc1.cur _ rfl
-  | cell id v ps =>
-    cases cur <;> cases cell <;> simp only [stepEv] at h <;> try cases h
-    refine ⟨⟨hsc1.done, hsc1.cur, ?_⟩, by simp, rfl, rfl⟩
-    intro c is hc
-    simp only [Option.some.injEq, Prod.mk.injEq] at hc
-    obtain ⟨rfl, rfl⟩ := hc
-    exact ⟨⟨he, Nat.lt_succ_self pos⟩, by simp⟩
-  | endCell =>
-    cases cur <;> cases cell <;> simp only [stepEv] at h <;> try cases h
-    rename_i l ci
-    obtain ⟨c, is⟩ := ci
-    refine ⟨⟨hsc1.done, ?_, by simp⟩, by simp, rfl, rfl⟩
-    intro l' hl'
-    simp only [Option.some.injEq] at hl'
-    subst hl'
-    have hl := hsc1.cur l rfl
-    refine ⟨hl.1, ?_⟩
+theorem find_firstIn (p : β → Bool) (P : β → Prop) (hp : ∀ x, p x = true ↔ P x) (l : List β) (d : β) :
+    l.find? p = some d ↔ FirstIn P l d := by
+  rw [List.find?_eq_some_iff_append]
+  constructor
+  · rintro ⟨h1, as, bs, h2, h3⟩
+    refine ⟨as, bs, h2, (hp d).mp h1, ?_⟩
+    intro x hx hPx
+    have := h3 x hx
+    rw [(hp x).mpr hPx] at this
+    cases this
+  · rintro ⟨as, bs, h2, h1, h3⟩
+    refine ⟨(hp d).mpr h1, as, bs, h2, ?_⟩
     intro x hx
-    rcases List.mem_append.mp hx with hx | hx
-    · exact hl.2 x hx
-    · simp at hx; rw [hx]; exact (hsc1.cell c is rfl).1
-  | inst id v co lo =>
-    cases cur <;> cases cell <;> simp only [stepEv] at h <;> try cases h
-    rename_i l ci
-    obtain ⟨c, insts⟩ := ci
-    simp only at h
-    cases ht : resolveTarget ⟨done, some l, some (c, insts)⟩ l c v co lo with
-    | error err => simp [ht] at h
-    | ok t =>
-      simp only [ht, Except.ok.injEq, Prod.mk.injEq] at h
-      obtain ⟨rfl, rfl⟩ := h
-      obtain ⟨hc0, his0⟩ := hsc.cell c insts rfl
-      obtain ⟨ht1, ht2, ht3, ht4⟩ := resolveTarget_sound hsc (hsc.cur l rfl) hc0 ht
-      refine ⟨⟨hsc1.done, hsc1.cur, ?_⟩, ?_, ?_, rfl⟩
-      · intro c' is' hc'
-        simp only [Option.some.injEq, Prod.mk.injEq] at hc'
-        obtain ⟨rfl, rfl⟩ := hc'
-        refine ⟨(hsc1.cell c insts rfl).1, ?_⟩
-        intro i hi
-        rcases List.mem_append.mp hi with hi | hi
-        · exact (hsc1.cell c insts rfl).2 i hi
-        · simp at hi; subst hi
-          exact ⟨⟨v, co, lo, he⟩, Nat.lt_succ_self pos, ht1.mono (Nat.le_succ pos)⟩
-      · intro x hx
-        simp only [Option.some.injEq] at hx
-        subst hx
-        exact ⟨id, v, co, lo, t.ident, t.view, t.ports, he, ht1.1, ht1.2, ht2, ht3⟩
-      · have hd := cell_declared ht1
-        simp only [undeclared, Bool.or_eq_false_iff]
-        refine ⟨?_, ?_⟩
-        · cases co with
-          | none => rfl
-          | some cn =>
-            simp only [Bool.or_eq_false_iff]
-            refine ⟨?_, ?_⟩
-            · apply nc_false
-              rw [← eqI_lower (ht3 cn rfl)]; exact hd.1
-            · cases lo with
-              | none => rfl
-              | some ln => exact nc_false (ht4 ln rfl (by simp))
-        · apply nc_false
-          rw [← eqI_lower ht2]; exact hd.2.1
-  | portRef p m io =>
-    cases cell with
-    | none => simp [stepEv] at h
-    | some ci =>
-      obtain ⟨c, insts⟩ := ci
-      simp only [stepEv] at h
-      cases ho : ownerOf c insts io with
-      | error err => simp [ho] at h
-      | ok oa =>
-        obtain ⟨owner, ia⟩ := oa
-        simp only [ho] at h
-        cases hp : pickPort owner ia p m with
-        | error err => simp [hp] at h
-        | ok rr =>
-          simp only [hp, Except.ok.injEq, Prod.mk.injEq] at h
-          obtain ⟨rfl, rfl⟩ := h
-          obtain ⟨hc0, his0⟩ := hsc.cell c insts rfl
-          obtain ⟨hown, hinst⟩ := ownerOf_sound hc0 his0 ho
-          obtain ⟨k, pd, rfl, hk, hpid, hw⟩ := pickPort_sound hp
-          refine ⟨hsc1, ?_, ?_, rfl⟩
-          · intro x hx
-            simp only [Option.some.injEq] at hx
-            subst hx
-            refine ⟨p, m, io, owner.ident, owner.view, owner.ports, pd, he, hown.1, hown.2, hk, hpid, rfl, hw, ?_⟩
-            cases io <;> cases ia <;> simp only at hinst ⊢
-            · exact ⟨hinst.1, hinst.2.1⟩
-          · have hd := cell_declared hown
-            simp only [undeclared, Bool.or_eq_false_iff]
-            refine ⟨?_, ?_⟩
-            · apply nc_false
-              rw [← eqI_lower hpid]
-              exact hd.2.2 pd (List.mem_of_getElem? hk)
-            · cases io with
-              | none => rfl
-              | some iname =>
-                cases ia with
-                | none => simp at hinst
-                | some a => exact nc_false hinst.2.2
-  | design cn ln =>
-    cases cur <;> cases cell <;> simp only [stepEv] at h <;> try cases h
-    cases hp : pickTop done cn ln with
-    | error err => simp [hp] at h
-    | ok rr =>
-      simp only [hp, Except.ok.injEq, Prod.mk.injEq] at h
-      obtain ⟨rfl, rfl⟩ := h
-      obtain ⟨t, rfl, ht1, ht2, ht3⟩ := pickTop_sound hsc.done hp
-      refine ⟨hsc1, ?_, ?_, rfl⟩
-      · intro x hx
-        simp only [Option.some.injEq] at hx
-        subst hx
-        exact ⟨cn, ln, t.ident, t.view, t.ports, he, ht1.1, ht1.2, ht2⟩
-      · simp only [undeclared, Bool.or_eq_false_iff]
-        refine ⟨?_, nc_false ht3⟩
-        apply nc_false
-        rw [← eqI_lower ht2]; exact (cell_declared ht1).1
+    cases hx' : p x with
+    | false => rfl
+    | true => exact absurd ((hp x).mp hx') (h3 x hx)
 
-/-! ### the whole stream -/
+theorem find_none (p : β → Bool) (P : β → Prop) (hp : ∀ x, p x = true ↔ P x) (l : List β) :
+    l.find? p = none ↔ ∀ x ∈ l, ¬ P x := by
+  rw [List.find?_eq_none]
+  constructor
+  · intro h x hx hPx; exact h x hx ((hp x).mpr hPx)
+  · intro h x hx hpx; exact h x hx ((hp x).mp hpx)
 
-theorem go_sound (all : List Ev) (pre rest : List Ev) (hall : all = pre ++ rest) (sc : Scope)
-    (hsc : ScopeOK all pre.length sc) (rs : List (Nat × RRef)) (hgo : go pre.length sc rest = .ok rs) :
-    (∀ kr ∈ rs, RefOk all kr.1 kr.2) ∧ (∀ e ∈ rest, undeclared all e = false) ∧
-    rs.map (·.1) = refPositions pre.length rest := by
-  induction rest generalizing pre sc rs with
+theorem FirstIn.mem {P : β → Prop} {l : List β} {d : β} (h : FirstIn P l d) : d ∈ l ∧ P d := by
+  obtain ⟨pre, post, rfl, hd, _⟩ := h
+  exact ⟨by simp, hd⟩
+
+theorem FirstIn.unique {P : β → Prop} {l : List β} {d d' : β} (h : FirstIn P l d) (h' : FirstIn P l d') : d = d' := by
+  obtain ⟨pre, post, hl, hd, hpre⟩ := h
+  obtain ⟨pre', post', hl', hd', hpre'⟩ := h'
+  induction pre generalizing l pre' with
   | nil =>
-    simp only [go, Except.ok.injEq] at hgo
-    subst hgo
-    exact ⟨by simp, by simp, rfl⟩
-  | cons e rest ih =>
-    have he : all[pre.length]? = some e := by rw [hall]; simp
-    simp only [go] at hgo
-    cases hs : stepEv pre.length sc e with
-    | error err => simp [hs] at hgo
-    | ok sr =>
-      obtain ⟨sc', r⟩ := sr
-      simp only [hs] at hgo
-      cases hg : go (pre.length + 1) sc' rest with
-      | error err => simp [hg] at hgo
-      | ok rs' =>
-        simp only [hg, Except.ok.injEq] at hgo
-        obtain ⟨h1, h2, h3, h4⟩ := step_sound hsc he hs
-        have hlen : (pre ++ [e]).length = pre.length + 1 := by simp
-        obtain ⟨i1, i2, i3⟩ := ih (pre ++ [e]) (by rw [hall]; simp) sc' (by rw [hlen]; exact h1) rs'
-          (by rw [hlen]; exact hg)
-        rw [hlen] at i3
-        refine ⟨?_, ?_, ?_⟩
-        · intro kr hkr
-          cases r with
-          | none => simp only at hgo; subst hgo; exact i1 kr hkr
-          | some x =>
-            simp only at hgo; subst hgo
-            rcases List.mem_cons.mp hkr with rfl | hkr
-            · exact h2 x rfl
-            · exact i1 kr hkr
-        · intro e' he'
-          rcases List.mem_cons.mp he' with rfl | he'
-          · exact h3
-          · exact i2 e' he'
-        · cases r with
-          | none =>
-            simp only at hgo; subst hgo
-            have : isRef e = false := by simpa using h4.symm
-            simp [refPositions, this, i3]
-          | some x =>
-            simp only at hgo; subst hgo
-            have : isRef e = true := by simpa using h4.symm
-            simp [refPositions, this, i3]
+    cases pre' with
+    | nil => rw [hl] at hl'; simp at hl'; exact hl'.1
+    | cons c r => rw [hl] at hl'; simp at hl'; exact absurd (hl'.1 ▸ hd) (hpre' c (by simp))
+  | cons c r ih =>
+    cases pre' with
+    | nil => rw [hl] at hl'; simp at hl'; exact absurd (hl'.1 ▸ hd') (hpre c (by simp))
+    | cons c' r' =>
+      rw [hl] at hl'
+      simp at hl'
+      exact ih (l := r ++ d :: post) rfl (fun x hx => hpre x (List.mem_cons_of_mem _ hx)) r' hl'.2
+        (fun x hx => hpre' x (List.mem_cons_of_mem _ hx))
+
+theorem firstIn_map {γ : Type} (f : β → γ) (P : γ → Prop) (l : List β) (d : β)
+    (h : FirstIn (fun x => P (f x)) l d) : FirstIn P (l.map f) (f d) := by
+  obtain ⟨pre, post, rfl, hd, hpre⟩ := h
+  refine ⟨pre.map f, post.map f, by simp, hd, ?_⟩
+  intro x hx
+  obtain ⟨y, hy, rfl⟩ := List.mem_map.mp hx
+  exact hpre y hy
+
+end first
+
+theorem findPort_spec (ps : List PortDecl) (n : String) (k j : Nat) (pd : PortDecl) :
+    findPort ps n k = some (j, pd) ↔ ∃ idx, j = k + idx ∧ FirstPort ps n idx pd := by
+  induction ps generalizing k with
+  | nil =>
+    simp only [findPort]
+    constructor
+    · intro h; cases h
+    · rintro ⟨idx, _, h, _⟩; simp at h
+  | cons p r ih =>
+    unfold findPort
+    by_cases hp : eqI p.ident n = true
+    · rw [if_pos hp]
+      constructor
+      · intro h
+        simp only [Option.some.injEq, Prod.mk.injEq] at h
+        obtain ⟨rfl, rfl⟩ := h
+        exact ⟨0, by simp, by simp, hp, by intro j q hj; omega⟩
+      · rintro ⟨idx, rfl, h1, h2, h3⟩
+        cases idx with
+        | zero => simp at h1; subst h1; simp
+        | succ i =>
+          have := h3 0 p (by omega) (by simp)
+          rw [hp] at this; cases this
+    · rw [if_neg hp]
+      have hp' : eqI p.ident n = false := by simpa using hp
+      rw [ih (k + 1)]
+      constructor
+      · rintro ⟨idx, rfl, h1, h2, h3⟩
+        refine ⟨idx + 1, by omega, by simpa using h1, h2, ?_⟩
+        intro j q hj hq
+        cases j with
+        | zero => simp at hq; subst hq; exact hp'
+        | succ j' => exact h3 j' q (by omega) (by simpa using hq)
+      · rintro ⟨idx, rfl, h1, h2, h3⟩
+        cases idx with
+        | zero => simp at h1; subst h1; rw [h2] at hp'; cases hp'
+        | succ i =>
+          refine ⟨i, by omega, by simpa using h1, h2, ?_⟩
+          intro j q hj hq
+          exact h3 (j + 1) q (by omega) (by simpa using hq)
+
+theorem findPort_none (ps : List PortDecl) (n : String) (k : Nat) :
+    findPort ps n k = none ↔ ∀ q ∈ ps, eqI q.ident n = false := by
+  induction ps generalizing k with
+  | nil => simp [findPort]
+  | cons p r ih =>
+    unfold findPort
+    by_cases hp : eqI p.ident n = true
+    · rw [if_pos hp]
+      constructor
+      · intro h; cases h
+      · intro h; have := h p (by simp); rw [hp] at this; cases this
+    · rw [if_neg hp, ih]
+      have hp' : eqI p.ident n = false := by simpa using hp
+      constructor
+      · intro h q hq
+        rcases List.mem_cons.mp hq with rfl | hq
+        · exact hp'
+        · exact h q hq
+      · intro h q hq; exact h q (List.mem_cons_of_mem _ hq)
+
+theorem FirstPort.unique {ps : List PortDecl} {n : String} {i j : Nat} {p q : PortDecl}
+    (h : FirstPort ps n i p) (h' : FirstPort ps n j q) : i = j ∧ p = q := by
+  obtain ⟨h1, h2, h3⟩ := h
+  obtain ⟨h1', h2', h3'⟩ := h'
+  have hij : i = j := by
+    rcases Nat.lt_trichotomy i j with hlt | heq | hgt
+    · have := h3' i p hlt h1; rw [h2] at this; cases this
+    · exact heq
+    · have := h3 j q hgt h1'; rw [h2'] at this; cases this
+  subst hij
+  rw [h1] at h1'
+  exact ⟨rfl, Option.some.inj h1'⟩
+
+/-! ### the visibility fold -/
+
+theorem visFrom_append (p : Nat) (v : Vis) (l : List Ev) (e : Ev) :
+    visFrom p v (l ++ [e]) = (visFrom p v l).bind (fun v' => visStep (p + l.length) v' e) := by
+  induction l generalizing p v with
+  | nil =>
+    simp only [List.nil_append, visFrom, List.length_nil, Nat.add_zero, Option.bind_some]
+    cases visStep p v e <;> rfl
+  | cons a r ih =>
+    simp only [List.cons_append, visFrom, List.length_cons]
+    cases visStep p v a with
+    | none => rfl
+    | some v' =>
+      simp only
+      rw [ih]
+      have : p + 1 + r.length = p + (r.length + 1) := by omega
+      rw [this]
+
+theorem visAt_succ (evs : List Ev) (k : Nat) (e : Ev) (he : evs[k]? = some e) :
+    visAt evs (k + 1) = (visAt evs k).bind (fun v => visStep k v e) := by
+  have hk : k < evs.length := by
+    rcases Nat.lt_or_ge k evs.length with h | h
+    · exact h
+    · rw [List.getElem?_eq_none h] at he; cases he
+  have htake : evs.take (k + 1) = evs.take k ++ [e] := by
+    rw [List.take_succ, he]; rfl
+  unfold visAt
+  rw [htake, visFrom_append]
+  simp [List.length_take, Nat.min_eq_left (Nat.le_of_lt hk)]
+
+theorem visAt_zero (evs : List Ev) : visAt evs 0 = some Vis.empty := by
+  simp [visAt, visFrom]
+
+/-! ### the resolver's scope, seen as a `Vis` -/
+
+def Scope.vis (sc : Scope) : Vis :=
+  ⟨sc.done, sc.cur, sc.cell.map (fun ci => (ci.1, ci.2.map (·.1)))⟩
+
+theorem empty_vis : Scope.empty.vis = Vis.empty := rfl
 
 end Spydr.IO.Resolve
